@@ -263,10 +263,41 @@ impl<'tcx> Cx<'tcx> {
                 o.push(("int", J::N(v)));
             }
         } else if let Const::Val(val, _) = c.const_ {
-            if let ConstValue::Slice { .. } = val {
-                if let Some(bytes) = val.try_get_slice_bytes_for_diagnostics(self.tcx) {
-                    o.push(("str", J::S(String::from_utf8_lossy(bytes).into_owned())));
+            match val {
+                ConstValue::Slice { .. } => {
+                    if let Some(bytes) = val.try_get_slice_bytes_for_diagnostics(self.tcx) {
+                        o.push(("str", J::S(String::from_utf8_lossy(bytes).into_owned())));
+                    }
                 }
+                ConstValue::Scalar(mir::interpret::Scalar::Ptr(ptr, _)) => {
+                    // pointer constant: a static, or a byte-array literal `b"..."`
+                    let (prov, off) = ptr.prov_and_relative_offset();
+                    match self.tcx.global_alloc(prov.alloc_id()) {
+                        mir::interpret::GlobalAlloc::Static(did) => {
+                            o.push(("def", J::S(self.path(did))));
+                            o.push(("static", J::B(true)));
+                        }
+                        mir::interpret::GlobalAlloc::Memory(a) => {
+                            let inner = a.inner();
+                            let is_bytes = match ty.kind() {
+                                ty::Ref(_, t, _) => match t.kind() {
+                                    ty::Array(e, _) | ty::Slice(e) => *e == self.tcx.types.u8,
+                                    ty::Str => true,
+                                    _ => false,
+                                },
+                                _ => false,
+                            };
+                            if is_bytes && inner.provenance().ptrs().is_empty() && off.bytes() == 0 {
+                                let bytes = inner.inspect_with_uninit_and_ptr_outside_interpreter(
+                                    0..inner.len(),
+                                );
+                                o.push(("str", J::S(String::from_utf8_lossy(bytes).into_owned())));
+                            }
+                        }
+                        _ => {}
+                    }
+                }
+                _ => {}
             }
         }
         J::O(o)
